@@ -77,6 +77,7 @@ pub struct Outcome {
 static ACTION_COUNTS: [AtomicU64; 7] = [AtomicU64::new(0), AtomicU64::new(0), AtomicU64::new(0), AtomicU64::new(0), AtomicU64::new(0), AtomicU64::new(0), AtomicU64::new(0)];
 static FAMILY_OBJECTS: std::sync::Mutex<std::collections::BTreeMap<String, u64>> = std::sync::Mutex::new(std::collections::BTreeMap::new());
 static SAME_TYPE_SCHEDULES: AtomicU64 = AtomicU64::new(0);
+static SIBLING_SCHEDULES: AtomicU64 = AtomicU64::new(0);
 
 fn count_schedule(s: &Schedule) {
     for (_, a) in &s.steps {
@@ -319,6 +320,45 @@ pub fn run_schedule(s: &Schedule) -> Outcome {
     out
 }
 
+/// A cell of the same type whose parameters differ from `c` in exactly one bit-level detail: an integer
+/// parameter plus or minus 2^k (k = 0..63), or a float parameter with one mantissa bit flipped (its magnitude
+/// changes by less than a factor two, so the sibling stays where `c` is with respect to E). Such pairs collide
+/// in a cache keyed on truncated, shifted, hashed or rounded parameters (seeded change R7-C14-1).
+pub fn sibling(c: &Cell, sel: u64) -> Option<Cell> {
+    let n = c.ip.len() + c.p.len();
+    if n == 0 {
+        return None;
+    }
+    sibling_at(c, (sel % n as u64) as usize, ((sel >> 8) % 64) as u32, (sel >> 16) & 1 == 1)
+}
+
+/// parameter j (integers first), bit k, `down`: subtract instead of add (integers only)
+pub fn sibling_at(c: &Cell, j: usize, k: u32, down: bool) -> Option<Cell> {
+    if j >= c.ip.len() + c.p.len() {
+        return None;
+    }
+    let mut d = c.clone();
+    if j < c.ip.len() {
+        let v = c.ip[j];
+        d.ip[j] = if !down { v.checked_add(1u64 << k)? } else { v.checked_sub(1u64 << k)? };
+    } else {
+        let j = j - c.ip.len();
+        let v = c.p[j];
+        let w = match c.ft {
+            Ft::F64 => f64::from_bits(v.to_bits() ^ (1u64 << (k % 52))),
+            Ft::F32 => f32::from_bits((v as f32).to_bits() ^ (1u32 << (k % 23))) as f64,
+        };
+        if !w.is_finite() || !v.is_finite() {
+            return None;
+        }
+        d.p[j] = w;
+    }
+    if d == *c || (d.fam == Fam::Hypergeometric && d.ip[0] > 1 << 30) || !matches!(catch(|| build(&d).is_ok()), Ok(true)) {
+        return None;
+    }
+    Some(d)
+}
+
 pub fn cell_pool(seed: u64) -> Vec<Cell> {
     let mut pool = vec![];
     for &fam in CONTINUOUS.iter().chain(DISCRETE.iter()) {
@@ -405,6 +445,13 @@ pub fn run(ctx: &Ctx) {
                         cells[1] = c.clone();
                     }
                 }
+                // every third schedule: the second object is a bit-level sibling of the first
+                if seed % 3 == 1 && cells.len() >= 2 {
+                    if let Some(c) = sibling(&cells[0], seed / 3) {
+                        cells[1] = c;
+                        SIBLING_SCHEDULES.fetch_add(1, Ordering::Relaxed);
+                    }
+                }
                 Schedule { cells, steps, seed }
             });
         let res = crate::pt::search(hseed(&[ctx.seed, sh, 0xC14]), cases / shards as u32, strat, |s| {
@@ -432,6 +479,7 @@ pub fn run(ctx: &Ctx) {
         ctx.class(&format!("steps:{nm}"), ACTION_COUNTS[k].load(Ordering::Relaxed));
     }
     ctx.class("schedules_with_two_objects_of_one_type", SAME_TYPE_SCHEDULES.load(Ordering::Relaxed));
+    ctx.class("schedules_with_bit_level_sibling", SIBLING_SCHEDULES.load(Ordering::Relaxed));
     for (f, n) in FAMILY_OBJECTS.lock().unwrap().iter() {
         ctx.class(&format!("objects:{f}"), *n);
     }
@@ -465,6 +513,40 @@ pub fn run(ctx: &Ctx) {
                 report(ctx, &s, &sym, &msg);
             }
         }
+    }
+    // bit-level siblings: for a few cells of every type, every parameter x every bit (integer +-2^k, float
+    // mantissa bit k): both objects built on one thread, then sampled alternately (each call is replayed on a
+    // fresh object in a fresh thread by run_schedule)
+    {
+        use rayon::prelude::*;
+        let mut sib_jobs: Vec<(Cell, Cell, u64)> = vec![];
+        for (_, v) in by_type.iter() {
+            let step = (v.len() / 4).max(1);
+            for a in v.iter().step_by(step).take(4) {
+                let n = a.ip.len() + a.p.len();
+                for j in 0..n.min(4) {
+                    let (bits, signs) = if j < a.ip.len() { (64, 2) } else if a.ft == Ft::F32 { (23, 1) } else { (52, 1) };
+                    for k in 0..bits {
+                        for sign in 0..signs {
+                            if let Some(b) = sibling_at(a, j, k, sign == 1) {
+                                sib_jobs.push((a.clone(), b, (j as u64) | ((k as u64) << 8) | (sign << 16)));
+                            }
+                        }
+                    }
+                }
+            }
+        }
+        ctx.class("sibling_pairs_deterministic", sib_jobs.len() as u64);
+        sib_jobs.par_iter().for_each(|(a, b, sel)| {
+            let steps = vec![(0, Action::SampleShared), (1, Action::SampleShared), (1, Action::IterTake(3)), (0, Action::IterTake(3)), (1, Action::SamplePrivate(*sel)), (0, Action::SampleShared)];
+            let s = Schedule { cells: vec![a.clone(), b.clone()], steps, seed: hseed(&[ctx.seed, *sel, 0x51B1]) };
+            ctx.eval(1);
+            let o = run_schedule(&s);
+            ctx.nontrivial(hseed(&[crate::rng::hstr(&a.key()), crate::rng::hstr(&b.key()), 10]));
+            if let Some((sym, msg)) = o.violation {
+                report(ctx, &s, &sym, &msg);
+            }
+        });
     }
     // same-family pairs with run lengths: hidden per-thread / per-process state keyed on the parameters shows up
     // as history dependence when one object is sampled many times right after another one
